@@ -20,6 +20,19 @@ const RDB_VERSION: u16 = 9;
 /// RDB magic string
 const RDB_MAGIC: &[u8] = b"REDIS";
 
+/// Escape element of the LIST encoding. A stream is written under the LIST opcode with the
+/// stream marker as its first element, so a genuine list that starts with the marker string
+/// (or with this escape string) is written with this one extra element in front; the loader
+/// drops it and reads the elements after it as a plain list.
+const LIST_ESCAPE: &[u8] = b"__FERROUS_LIST_ESCAPE__";
+
+/// Does a genuine list need the escape element in front of its first element?
+fn list_needs_escape(list: &std::collections::VecDeque<Vec<u8>>) -> bool {
+    list.front().map_or(false, |first| {
+        first.as_slice() == b"__FERROUS_STREAM_MARKER__" || first.as_slice() == LIST_ESCAPE
+    })
+}
+
 /// RDB opcodes
 #[repr(u8)]
 #[derive(Debug, Clone, Copy)]
@@ -272,7 +285,12 @@ impl RdbEngine {
                             buffer.extend_from_slice(bytes.as_ref());
                         }
                         Value::List(list) => {
-                            self.write_length(&mut buffer, list.len())?;
+                            let escape = list_needs_escape(&list);
+                            self.write_length(&mut buffer, list.len() + escape as usize)?;
+                            if escape {
+                                self.write_length(&mut buffer, LIST_ESCAPE.len())?;
+                                buffer.extend_from_slice(LIST_ESCAPE);
+                            }
                             for item in list {
                                 self.write_length(&mut buffer, item.len())?;
                                 buffer.extend_from_slice(&item);
@@ -620,8 +638,12 @@ impl<W: Write> RdbWriter<W> {
                 self.write_byte(RdbOpcode::List as u8)?;
                 self.write_string(key)?;
                 
-                // Write list length
-                self.write_length(list.len())?;
+                // Write list length (one more for the escape element, see LIST_ESCAPE)
+                let escape = list_needs_escape(list);
+                self.write_length(list.len() + escape as usize)?;
+                if escape {
+                    self.write_string(LIST_ESCAPE)?;
+                }
                 
                 // Write each list element
                 for item in list {
@@ -933,7 +955,11 @@ impl<R: Read> RdbReader<R> {
                         return Ok(key);
                     } else {
                         // Regular list - first element already read
-                        storage.rpush(db, key.clone(), vec![first_element])?;
+                        // (an escape element is dropped: what follows it is a plain list,
+                        // whatever its first element is)
+                        if first_element != LIST_ESCAPE {
+                            storage.rpush(db, key.clone(), vec![first_element])?;
+                        }
                         
                         // Read remaining list elements
                         for _ in 1..count {
